@@ -69,7 +69,7 @@ def guard_kw(g):
     return ""
 
 
-def callbacks_src(spec, decorators=False):
+def callbacks_src(spec, decorators=False, state_params=False):
     lines = ["    def ok(self):", "        return self.flags.pop(0) if self.flags else True"]
     evs = list(spec["events"]) + (["anyev"] if spec["any"] else [])
     for e in evs:
@@ -77,16 +77,17 @@ def callbacks_src(spec, decorators=False):
             if decorators and ph == "on":
                 continue  # the decorated function that DECLARES the event is its `on` action (written with the transitions)
             lines += [f"    def {ph}_{e}(self):", f"        self.trace.append('{ph}_{e}')"]
+    pre = "do" if state_params else "on"  # State(enter="do_enter_x", exit="do_exit_x") instead of the naming convention
     for s in spec["ids"]:
-        lines += [f"    def on_enter_{s}(self):", f"        self.__dict__.setdefault('trace', []).append('on_enter_{s}')",
-                  f"    def on_exit_{s}(self):", f"        self.trace.append('on_exit_{s}')"]
+        lines += [f"    def {pre}_enter_{s}(self):", f"        self.__dict__.setdefault('trace', []).append('on_enter_{s}')",
+                  f"    def {pre}_exit_{s}(self):", f"        self.trace.append('on_exit_{s}')"]
     return lines
 
 
-def states_src(spec, prefix=""):
+def states_src(spec, prefix="", params=False):
     out = []
     for s in spec.get("order", spec["ids"]):
-        args = []
+        args = [f'enter="do_enter_{s}"', f'exit="do_exit_{s}"'] if params else []
         if s == spec["ids"][0]:
             args.append("initial=True")
         if s == spec["final"]:
@@ -131,7 +132,7 @@ def render(spec, style, name):
         body += [f'    {e} = Event(name="{e}")' for e in evs]
         body += states_src(spec)
     else:
-        body += states_src(spec)
+        body += states_src(spec, params=(style == "state_params"))
 
     def tr(t, with_event=None):
         es, s, d, g = t
@@ -184,13 +185,13 @@ def render(spec, style, name):
             body += ["    @(" + " | ".join(any_explicit(spec, P)) + ")", "    def anyev(self):", "        self.trace.append('on_anyev')"]
         else:
             body.append("    anyev = " + " | ".join(any_explicit(spec, P)))
-    cls = [f"class {name}(StateMachine):"] + body + callbacks_src(spec, decorators=(style == "decorator"))
+    cls = [f"class {name}(StateMachine):"] + body + callbacks_src(spec, decorators=(style == "decorator"), state_params=(style == "state_params"))
     if style == "subclass":
         cls = [f"class Base_{name}(StateMachine):"] + body + callbacks_src(spec) + ["", f"class {name}(Base_{name}):", "    pass"]
     return "\n".join(L + cls) + "\n"
 
 
-STYLES = ["plain", "from_", "event_str", "event_list", "states_first", "events_first", "mixed", "mixed_inline", "decorator", "itself",
+STYLES = ["plain", "from_", "event_str", "event_list", "states_first", "events_first", "mixed", "mixed_inline", "decorator", "state_params", "itself",
           "enum", "intenum", "states_dict", "subclass", "any"]
 
 
